@@ -138,6 +138,9 @@ func seqNextSites(p *Prog) []seqSite {
 			if !ok || !p.callIs(fi.Pkg, c, kSeqNext) || attributed[c] {
 				return true
 			}
+			if fw := p.forwardsTo(fi.Key, 0); len(fw) > 0 && fw[len(fw)-1] == kSeqNext {
+				return true // a pure forwarder of the counter: the calls of the forwarder are the sites
+			}
 			res = append(res, seqSite{root: fi, fn: fi, call: c, pos: p.pos(c), inLoop: insideLoop(fi.Decl.Body, c)})
 			return true
 		})
